@@ -416,6 +416,12 @@ func init() {
 		fmt.Sscan(in[1], &cut)
 		hsCut(c, in[0], cut, in[2], in[3])
 	}
+	replayers["HSW"] = func(c *ctx, in []string) {
+		var wbuf, k int
+		fmt.Sscan(in[1], &wbuf)
+		fmt.Sscan(in[2], &k)
+		hsWriteFail(c, in[0], wbuf, k)
+	}
 	wrap("C16", func(c *ctx) {
 		reqLen, respLen := len(hsRequest), len(hsResponseFor("dGhlIHNhbXBsZSBub25jZQ=="))
 		for cut := 0; cut < reqLen; cut++ {
@@ -429,6 +435,28 @@ func init() {
 				continue
 			}
 			hsCut(c, "di", cut, chunkSpecs[cut%len(chunkSpecs)], []string{"eof", "fail", "eofdata"}[cut%3])
+		}
+		// the same heads with bare-LF line ends (readLine accepts them): every offset again
+		lfReq, lfResp := len(hsLF(hsRequest)), len(hsLF(hsResponseFor("dGhlIHNhbXBsZSBub25jZQ==")))
+		for cut := 0; cut < lfReq; cut++ {
+			if !c.thor && cut%3 != 0 && cut < lfReq-12 {
+				continue
+			}
+			hsCut(c, "uplf", cut, chunkSpecs[(cut+1)%len(chunkSpecs)], []string{"fail", "eof", "eofdata"}[(cut/3+cut)%3])
+		}
+		for cut := 0; cut < lfResp; cut++ {
+			if !c.thor && cut%3 != 0 && cut < lfResp-12 {
+				continue
+			}
+			hsCut(c, "dilf", cut, chunkSpecs[(cut+1)%len(chunkSpecs)], []string{"fail", "eof", "eofdata"}[(cut/3+cut)%3])
+		}
+		// write side: the destination fails at its k-th write while the response / request is flushed
+		for _, who := range []string{"up", "uprej", "di"} {
+			for _, wbuf := range []int{0, 16, 64} {
+				for k := 0; k < 4; k++ {
+					hsWriteFail(c, who, wbuf, k)
+				}
+			}
 		}
 		for _, ctor := range []string{"s7", "s125", "b20"} {
 			for _, side := range []byte{1, 2} {
@@ -502,6 +530,7 @@ func init() {
 		for _, n := range []int{0, 1, 64, 65, 100, 125} {
 			for v := 0; v < 2; v++ {
 				c17Z(c, "readmessage", n, v)
+				c17Z(c, "readmessage-recycle", n, v)
 			}
 		}
 		for _, name := range []string{"writeclient", "writeserver", "writethrough", "writer", "cipherwriter"} {
@@ -576,6 +605,8 @@ type lazyResponse struct {
 	w          *recWriter
 	cut        int
 	spec, tail string
+	lf         bool
+	key, sent  string
 	r          *chunkReader
 }
 
@@ -590,25 +621,55 @@ func (l *lazyResponse) Read(p []byte) (int, error) {
 			}
 		}
 		resp := hsResponseFor(key)
+		if l.lf {
+			resp = hsLF(resp)
+		}
 		if l.cut < len(resp) {
 			resp = resp[:l.cut]
 		}
+		l.key, l.sent = key, resp
 		l.r = newChunkReader([]byte(resp), l.spec, l.tail)
 	}
 	return l.r.Read(p)
 }
 
-// HSC: a valid handshake whose transport ends (EOF / error) after [cut] bytes must fail, and no 101 is written
+// hsLF rewrites a head with bare-LF line ends
+func hsLF(s string) string { return strings.Replace(s, "\r\n", "\n", -1) }
+
+// hsErrClass: the projected outcome of a handshake (shared classes of C09 / C10; the chunk readers of
+// this file fail with errFail)
+func hsErrClass(who string, err error) string {
+	if err == errFail {
+		return "io:fail"
+	}
+	if strings.HasPrefix(who, "up") {
+		return upgradeErrClass(err)
+	}
+	return dialErrClass(err)
+}
+
+// HSC: a valid handshake whose transport ends (EOF / error) after [cut] bytes must fail, and no 101 is written.
+// who: up / di (CRLF heads), uplf / dilf (bare-LF heads).  Beside the monitor's observables the line carries
+// what the model needs: the bytes that arrived, the key the dialer sent, the outcome class and the bytes the
+// upgrader wrote.
 func hsCut(c *ctx, who string, cut int, spec, tail string) {
 	dst := newRecWriter()
 	var err error
+	lf := strings.HasSuffix(who, "lf")
+	stream, key := "", ""
+	var lr *lazyResponse
 	res := fzRun(func() error {
-		if who == "up" {
-			rw := &rwPair{r: newChunkReader([]byte(hsRequest)[:cut], spec, tail), w: dst}
+		if strings.HasPrefix(who, "up") {
+			req := hsRequest
+			if lf {
+				req = hsLF(req)
+			}
+			stream = req[:cut]
+			rw := &rwPair{r: newChunkReader([]byte(stream), spec, tail), w: dst}
 			_, err = ws.Upgrader{Protocol: func(p []byte) bool { return string(p) == "chat" }}.Upgrade(rw)
 		} else {
 			u, _ := url.Parse("ws://example.com/chat")
-			lr := &lazyResponse{w: dst, cut: cut, spec: spec, tail: tail}
+			lr = &lazyResponse{w: dst, cut: cut, spec: spec, tail: tail, lf: lf}
 			_, _, err = ws.Dialer{Protocols: []string{"chat"}}.Upgrade(struct {
 				io.Reader
 				io.Writer
@@ -616,8 +677,68 @@ func hsCut(c *ctx, who string, cut int, spec, tail string) {
 		}
 		return err
 	})
+	out := "-"
+	if lr != nil {
+		stream, key = lr.sent, lr.key
+	} else {
+		out = hx(dst.all())
+	}
+	fine := res.class
+	if res.class == "ok" || res.class == "err" {
+		fine = hsErrClass(who, err)
+	}
 	wrote101 := strings.HasPrefix(string(dst.all()), "HTTP/1.1 101")
-	c.emit("HSC %s %d %s %s -> %s %d %d", who, cut, spec, tail, res.class, b2i(err != nil), b2i(wrote101))
+	c.emit("HSC %s %d %s %s %s %s -> %s %d %d %s %s", who, cut, spec, tail, hx([]byte(stream)), hx([]byte(key)),
+		res.class, b2i(err != nil), b2i(wrote101), fine, out)
+}
+
+// failAtWriter accepts k writes and fails from then on
+type failAtWriter struct {
+	k, calls int
+	got      []byte
+}
+
+func (w *failAtWriter) Write(p []byte) (int, error) {
+	w.calls++
+	if w.calls > w.k {
+		return 0, errFail
+	}
+	w.got = append(w.got, p...)
+	return len(p), nil
+}
+
+// HSW: the destination fails at its (k+1)-th write while a handshake is written (the handshake models have no
+// failing destination, this clause is observed only).  up: valid request, the 101 is flushed into a failing
+// writer; uprej: a request that is refused (the error response meets the failing writer); di: the dialer's
+// request meets the failing writer (a correct response would follow).  Observables: error returned, whether
+// the destination was asked to write at all, and whether every write succeeded.
+func hsWriteFail(c *ctx, who string, wbuf, k int) {
+	dst := &failAtWriter{k: k}
+	var err error
+	res := fzRun(func() error {
+		switch who {
+		case "up", "uprej":
+			req := hsRequest
+			if who == "uprej" {
+				req = strings.Replace(req, "Upgrade: websocket", "Upgrade: nonsense", 1)
+			}
+			rw := struct {
+				io.Reader
+				io.Writer
+			}{newChunkReader([]byte(req), "-", "eof"), dst}
+			_, err = ws.Upgrader{WriteBufferSize: wbuf, Protocol: func(p []byte) bool { return string(p) == "chat" }}.Upgrade(rw)
+		default:
+			u, _ := url.Parse("ws://example.com/chat")
+			rec := newRecWriter()
+			lr := &lazyResponse{w: rec, cut: 1 << 20, spec: "-", tail: "eof"}
+			_, _, err = ws.Dialer{WriteBufferSize: wbuf, Protocols: []string{"chat"}}.Upgrade(struct {
+				io.Reader
+				io.Writer
+			}{lr, io.MultiWriter(rec, dst)}, u)
+		}
+		return err
+	})
+	c.emit("HSW %s %d %d -> %s %d %d %d", who, wbuf, k, res.class, b2i(err != nil), dst.calls, b2i(dst.calls > dst.k))
 }
 
 // aliasWriter fails from call failAt on (-1: never) and notices when it is handed the caller's own memory
@@ -649,6 +770,41 @@ func c17Z(c *ctx, name string, n, variant int) {
 	c17Setup()
 	status, intact, aliased := "ok", true, false
 	st := guarded(func() {
+		if name == "readmessage-recycle" {
+			// the []Message slice is recycled (m = m[:0], the idiom of a read loop) while the application still
+			// holds the payloads it was given earlier: later calls must not build their messages in that memory
+			side := byte(1 + variant)
+			var wire []byte
+			var want [][]byte
+			for k := 0; k < 6; k++ {
+				sz := n - k
+				if sz < 0 {
+					sz = 0
+				}
+				f := c.mkFrame(side, true, 2, sz)
+				wire = append(wire, wireOf([]sframe{f})...)
+				want = append(want, f.payload)
+			}
+			src := bytes.NewReader(wire)
+			var msgs []wsutil.Message
+			var held [][]byte
+			for k := 0; k < 6; k++ {
+				var err error
+				msgs, err = wsutil.ReadMessage(src, ws.State(side), msgs[:0])
+				if err != nil || len(msgs) != 1 {
+					status = "readerr"
+					return
+				}
+				held = append(held, msgs[0].Payload)
+				c17Poison()
+			}
+			for k := range held {
+				if !bytes.Equal(held[k], want[k]) {
+					intact = false
+				}
+			}
+			return
+		}
 		if name == "readmessage" {
 			side := byte(1 + variant)
 			ctl := c.mkFrame(side, true, 9, n)
